@@ -118,7 +118,7 @@ def _render(fn):
     except T.SimAbort:
         raise
     except Exception as e:
-        e.__traceback__ = None
+        e.with_traceback(None)  # C-level: works for exception classes that forbid attribute assignment
         return ("raised", exc_key(e))
 
 
@@ -242,7 +242,7 @@ def run(tape: Tape) -> Outcome:
                         except T.SimAbort:
                             raise
                         except Exception as e:  # environment creation / overlay / clear_caches raised
-                            e.__traceback__ = None
+                            e.with_traceback(None)  # C-level: works for exception classes that forbid attribute assignment
                             results[i] = ("op-raised", exc_key(e))
             return fn
 
